@@ -11,8 +11,8 @@ from gen import c05_linearization as tr_lin
 from gen import c06_testlin as tr_tl
 
 ID = "C06"
-PROPS_FILES = ["Gama/Props/C06.lean", "Gama/Props/C06Assembled.lean"]
-LEAN_TARGETS = ["Gama.Props.C06", "Gama.Props.C06Assembled"]
+PROPS_FILES = ["Gama/Props/C06.lean", "Gama/Props/C06Assembled.lean", "Gama/Props/C06Refine.lean"]
+LEAN_TARGETS = ["Gama.Props.C06", "Gama.Props.C06Assembled", "Gama.Props.C06Refine"]
 DRIVERS = ["drv_cogo"]
 RULE = ("(a3) the whole of Acord2::execute (the real do-while, all strategy objects of the constructor) on in-memory networks "
         "of 2..4 given points and 2..6 construction stages, each tying a new point or a missing height to points that are "
@@ -399,6 +399,85 @@ def net_ops(lines):
         ops.append("refine " + " ".join(" ".join(u) for u in unk))
         exp.append("new " + " | ".join(new))
     return ops, exp
+
+
+
+# ------------------------------------------------------------------ (b') refine_obsdh_reductions, both modes
+def obsdh_ops(lines):
+    """model op lines + expected outputs from one `obsdh` run of the harness; (iters, max, status of the last call)"""
+    ops, exp, iters, last = [], [], None, None
+    for l in lines:
+        t = l.split()
+        if t[0] == "dh":
+            ops.append("obsdh " + " ".join(t[1:]))
+        elif t[0] == "res":
+            exp.append("ok " + " ".join(t[1:]))
+            last = t[1]
+        elif t[0] == "iters":
+            iters = (int(t[1]), int(t[2]))
+    return ops, exp, iters, last
+
+
+def obsdh_stream(ctx, corr, exe, drv, n, wd):
+    """the real refine_obsdh_reductions(IS, adjusted) on generated 3D networks with instrument / target heights against
+    Model/RefineAdjustment.lean over the regenerated Gen/RefineObsdh.lean, at four places of a run; oracle on the
+    implementation: a refine_adjustment() that stopped before its bound leaves every stored reduction within the
+    tolerance of the reduction at the adjusted coordinates (theorem C06_refine_adjustment_reductions_within_tolerance)"""
+    rng = ctx.rng
+    cases, files, maxit = [], [], []
+    corpus = ctx.verif / "corpus" / "C06"
+    for f in sorted(corpus.glob("*dh*.gkf")) if corpus.exists() else []:
+        cases.append([f"obsdh {f} 5"]); files.append(f); maxit.append(5)
+    for k in range(n):
+        fam = rng.choice(N.FAMILIES_3D)
+        B = N.constructive(rng, 3, fam, heights=True)
+        if rng.random() < 0.5:
+            N.add_redundant(B, rng.randint(1, 4))
+        v = N.variant_perturbed(B.net(), rng, rng.choice([1e-3, 1e-2, 1e-1, 1.0]))
+        f = wd / f"dh{k}.gkf"
+        f.write_text(G.to_gkf(v))
+        m = rng.choice([0, 1, 2, 5, 5, 5])
+        cases.append([f"obsdh {f} {m}"]); files.append(f); maxit.append(m)
+    impl, crashes = run_cases(exe, cases)
+    mcases, mexp, keep = [], [], []
+    for k, out in enumerate(impl):
+        if k in crashes:
+            corr.fail("harness crashed in refine_obsdh_reductions / refine_adjustment (sanitizer)",
+                      {"stream": "obsdh", "gkf": files[k].read_text(), "maxiter": maxit[k]}, "refine_obsdh_reductions",
+                      crashes[k][1])
+            continue
+        lines = [l for l in out if l and l.split()[0] in ("dh", "res", "iters")]
+        ops, exp, iters, last = obsdh_ops(lines)
+        if len(ops) != len(exp) or not ops:
+            corr.count("obsdh_not_adjustable")
+            continue
+        mcases.append(ops); mexp.append(exp); keep.append(k)
+        nobs = (len(ops[0].split()) - 3) // 23
+        corr.count("obsdh_calls", len(ops))
+        corr.count("obsdh_observations", nobs)
+        for o, e in zip(ops, exp):
+            corr.count("obsdh_mode_adjusted" if o.split()[1] == "1" else "obsdh_mode_store")
+            corr.count("obsdh_status_" + e.split()[1])
+        if iters is not None:
+            if iters[0] < iters[1]:
+                corr.count("obsdh_loop_left_by_break")
+                if last == "1":
+                    corr.fail("refine_adjustment() stopped before its bound but a stored from_dh/to_dh reduction differs from the "
+                              "reduction at the adjusted coordinates by more than the tolerance (1 um / 0.1 cc)",
+                              {"stream": "obsdh", "gkf": files[k].read_text(), "maxiter": maxit[k]},
+                              site="LocalNetwork::refine_adjustment", detail="\n".join(lines[-3:])[:1500])
+            else:
+                corr.count("obsdh_loop_ended_by_bound")
+    mout, _ = run_cases(drv, mcases)
+    for j, ops in enumerate(mcases):
+        nontriv = any(len(o.split()) > 3 for o in ops)
+        corr.case(key="\n".join(ops) if nontriv else None)
+        if len(mout[j]) != len(mexp[j]) or not all(lines_equal(a, b, rtol=1e-9, atol=1e-10) for a, b in zip(mexp[j], mout[j])):
+            bad = [(o, a, b) for o, a, b in zip(ops, mexp[j], mout[j]) if not lines_equal(a, b, rtol=1e-9, atol=1e-10)]
+            corr.disagree("obsdh", [o[:400] for o, _, _ in bad[:2]] + [f"gkf {files[keep[j]].name}"],
+                          [a for _, a, _ in bad[:2]], [b for _, _, b in bad[:2]])
+    if corr.stats.get("obsdh_status_1", 0) < 3 or corr.stats.get("obsdh_loop_left_by_break", 0) < 3:
+        corr.inconclusive.append("obsdh stream: fewer than 3 calls that ask for an iteration / loops left by break")
 
 
 # ------------------------------------------------------------------ (c) end to end
@@ -1234,6 +1313,8 @@ def correspond(ctx, corr):
                                                        for a, b in zip(mexp[k], mout[k])):
                 bad = [(o, a, b) for o, a, b in zip(ops, mexp[k], mout[k]) if not lines_equal(a, b, rtol=1e-9, atol=1e-9)]
                 corr.disagree("net", [o for o, _, _ in bad[:3]], [a for _, a, _ in bad[:3]], [b for _, _, b in bad[:3]])
+        # ---- (b') refine_obsdh_reductions in both modes + the invariant of refine_adjustment
+        obsdh_stream(ctx, corr, exe, drv, ctx.size(40, 400), wd)
         # ---- (c) end to end
         gd = ctx.build_gama(sanitize=ctx.thorough, targets=("gama-local",))
         for f in sorted(corpus.glob("*.gkf")) if corpus.exists() else []:
@@ -1313,6 +1394,22 @@ def replay(ctx, payload):
             print("algorithm:", inp.get("alg"), " variant:", inp.get("variant"), " signature:", inp.get("signature"))
             print("violations now:", bad[:8] if bad else "none")
             return 1 if bad else 0
+        finally:
+            shutil.rmtree(wd, ignore_errors=True)
+    if inp.get("stream") == "obsdh":
+        wd = Path(tempfile.mkdtemp(prefix="c06r-"))
+        try:
+            exe = build_harness(ctx)
+            f = wd / "r.gkf"
+            f.write_text(inp["gkf"])
+            impl, _ = run_cases(exe, [[f"obsdh {f} {inp.get('maxiter', 5)}"]])
+            ops, exp, iters, last = obsdh_ops([l for l in impl[0] if l and l.split()[0] in ("dh", "res", "iters")])
+            model, _ = run_cases(ctx.driver("drv_cogo"), [ops])
+            print(inp["gkf"])
+            print("iterations, bound:", iters, " status of refine_obsdh_reductions(IS, true) afterwards:", last)
+            agree = len(model[0]) == len(exp) and all(lines_equal(a, b, rtol=1e-9, atol=1e-10) for a, b in zip(exp, model[0]))
+            print("model agrees:", agree)
+            return 1 if (not agree or (iters and iters[0] < iters[1] and last == "1")) else 0
         finally:
             shutil.rmtree(wd, ignore_errors=True)
     if inp.get("stream") in ("prim", "acord", "acord2"):
